@@ -28,6 +28,11 @@ class AsyncioRunner(BaseRunner):
 
     def run_payload(self, payload: Callable[[], Coroutine]):
         future = asyncio.run_coroutine_threadsafe(payload(), self.asyncio_loop)
+        # ``result`` tests the stored exception for truth: raise it ourselves, so that
+        # an exception that is false (it defines ``__len__`` or ``__bool__``) is not lost
+        exception = future.exception()
+        if exception is not None:
+            raise exception
         return future.result()
 
     def _setup_payload(self, payload: Callable[[], Awaitable]):
